@@ -236,6 +236,10 @@ def run(ctx):
     exhaustive_python(ctx)
     exhaustive_extra(ctx)
     _random_stratum(ctx, "main", MW.Cfg(), 500 if quick else 8000, 7 if quick else 9)
+    from ._marker_common import size_strata
+
+    MM.clear_caches()
+    size_strata(ctx, lambda t: _run_tree(ctx, t), light=True)   # order twins, 33-70 children, term products of 500+
     _random_stratum(ctx, "prerelease", MW.Cfg(), 80 if quick else 1200, 6)
     _random_stratum(ctx, "prelit", MW.Cfg(prelit=True, extras=False, few_vars=["os_name"]), 80 if quick else 1200, 6)
     _random_stratum(ctx, "pyin", MW.Cfg(pyin=True, few_vars=["os_name"]), 80 if quick else 1200, 6)
@@ -254,4 +258,5 @@ def replay(ctx, case):
         return
     MM.clear_caches()
     ctx.stratum = case.get("stratum", "main")
-    _run_tree(ctx, case["tree"], watchdog=60.0)
+    ctx.boundary_only = ctx.stratum == "heavy"
+    _run_tree(ctx, case["tree"], watchdog=90.0)
